@@ -381,6 +381,8 @@ pub struct Config
     pub neworld: usize,
     /// Entities 1..=hier form a parent chain (entity e + 1 is the child of entity e).
     pub hier: usize,
+    /// Reactors added at start-up with `App::add_reactor` (one persistent bundle each); their systems come after the world reactors.
+    pub app: Vec<Vec<Trig>>,
 }
 
 impl Config
@@ -395,11 +397,13 @@ impl Config
             nworld: v["nworld"].as_u64().unwrap_or(0) as usize,
             neworld: v["neworld"].as_u64().unwrap_or(0) as usize,
             hier: v["hier"].as_u64().unwrap_or(0) as usize,
+            app: v["app"].as_array().map(|a| a.iter().map(bundle_from).collect()).unwrap_or_default(),
         }
     }
     pub fn to_json(&self) -> Value
     {
-        json!({"kinds": self.kinds, "nonce": self.nonce, "nent": self.nent, "nworld": self.nworld, "neworld": self.neworld, "hier": self.hier})
+        json!({"kinds": self.kinds, "nonce": self.nonce, "nent": self.nent, "nworld": self.nworld, "neworld": self.neworld, "hier": self.hier,
+               "app": self.app.iter().map(|b| bundle_to(b)).collect::<Vec<_>>()})
     }
     pub fn nsys(&self) -> usize { self.kinds.len() }
 }
